@@ -87,19 +87,25 @@ func (fp *FilePath) Write(b []byte) (n int, err error) {
 
 // IsDropbox checks if a FilePath matches the special drop box folder type
 func (fp *FilePath) IsDropbox() bool {
-	if fp.Len() == 0 {
-		return false
-	}
-
-	return strings.Contains(strings.ToLower(string(fp.Items[fp.Len()-1].Name)), "drop box")
+	return strings.Contains(strings.ToLower(fp.resolvedName()), "drop box")
 }
 
 func (fp *FilePath) IsUploadDir() bool {
-	if fp.Len() == 0 {
-		return false
-	}
+	return strings.Contains(strings.ToLower(fp.resolvedName()), "upload")
+}
 
-	return strings.Contains(strings.ToLower(string(fp.Items[fp.Len()-1].Name)), "upload")
+// resolvedName is the name of the folder the path addresses once ReadPath has joined and cleaned the items
+// ("" for the root): an item such as "Uploads/../Private", "." or ".." must not make the folder-type checks
+// look at a different folder than the one the request acts on.
+func (fp *FilePath) resolvedName() string {
+	var subPath string
+	for _, pathItem := range fp.Items {
+		subPath = filepath.Join("/", subPath, string(pathItem.Name))
+	}
+	if subPath == "" || subPath == "/" {
+		return ""
+	}
+	return filepath.Base(subPath)
 }
 
 func (fp *FilePath) Len() uint16 {
